@@ -270,7 +270,7 @@ func c06Families(tier string) []explore.Family {
 		N = 6
 	}
 	K := len(c06Alpha)
-	return []explore.Family{c06SemFamily(tier), {Name: fmt.Sprintf("token-sequences<=%d", N), Count: seqCount(K, N), Run: func(i int64, r *explore.Rec) {
+	return []explore.Family{c06SemFamily(tier), c06DeepFamily(), {Name: fmt.Sprintf("token-sequences<=%d", N), Count: seqCount(K, N), Run: func(i int64, r *explore.Rec) {
 		seq := seqAt(K, i)
 		var sb strings.Builder
 		for k, si := range seq {
@@ -444,12 +444,122 @@ func c06CheckAccepted(r *explore.Rec, seq []c06Sym, v c06Verdict) {
 		return
 	}
 	r.Class("sem/accepted/rendered")
+	out = []byte(c12TableTags.ReplaceAllString(string(out), "")) // tablerow decoration is not compared
 	if rerr != nil || string(out) != exp {
 		r.Violation("A3:rendered-markers", desc(), strconv.Quote(exp), fmt.Sprintf("%q err=%v", out, rerr))
 	}
 	if r.WantSample() {
 		r.Sample(map[string]any{"template": src, "rendered": string(out)})
 	}
+}
+
+// ---- third family: deep nesting (depth 1..40) and its one-edit neighbourhood, enumerated deterministically
+
+func c06DeepFamily() explore.Family {
+	kinds := []string{"if", "unless", "case", "for", "tablerow", "capture"}
+	open := func(k string) []c06Sym {
+		switch k {
+		case "if":
+			return []c06Sym{{"if", "open", "{% if true %}", "", true}}
+		case "unless":
+			return []c06Sym{{"unless", "open", "{% unless false %}", "", true}}
+		case "case":
+			return []c06Sym{{"case", "open", "{% case 1 %}", "", false}, {"when", "clause", "{% when 1 %}", "", true}}
+		case "for":
+			return []c06Sym{{"for", "open", "{% for i in (1..1) %}", "", true}}
+		case "tablerow":
+			return []c06Sym{{"tablerow", "open", "{% tablerow i in (1..1) %}", "", true}}
+		}
+		return []c06Sym{{"capture", "open", "{% capture c %}", "", true}}
+	}
+	end := func(k string) c06Sym { return c06Sym{"end" + k, "end", "{% end" + k + " %}", k, false} }
+	text := c06Sym{"text", "leaf", "", "", false}
+	const maxD = 40
+	// patterns: 6 homogeneous + 1 alternating; depth 1..40; edit kinds: none, drop end j, swap ends j/j+1, retag end j, stray else at level j
+	type job struct{ pattern, depth, edit, at int }
+	var jobs []job
+	for p := 0; p <= len(kinds); p++ {
+		for d := 1; d <= maxD; d++ {
+			jobs = append(jobs, job{p, d, 0, 0})
+			for j := 0; j < d; j++ {
+				jobs = append(jobs, job{p, d, 1, j}, job{p, d, 3, j}, job{p, d, 4, j})
+				if j+1 < d {
+					jobs = append(jobs, job{p, d, 2, j})
+				}
+			}
+		}
+	}
+	return explore.Family{Name: "deep-nesting-1..40-and-one-edit", Count: int64(len(jobs)), Run: func(i int64, r *explore.Rec) {
+		jb := jobs[i]
+		kindAt := func(level int) string {
+			if jb.pattern < len(kinds) {
+				return kinds[jb.pattern]
+			}
+			return kinds[level%len(kinds)]
+		}
+		var seq []c06Sym
+		for l := 0; l < jb.depth; l++ {
+			seq = append(seq, open(kindAt(l))...)
+			seq = append(seq, text)
+			if jb.edit == 4 && l == jb.at {
+				seq = append(seq, c06Sym{"elsif", "clause", "{% elsif true %}", "", true}) // legal only directly inside if
+			}
+		}
+		ends := make([]c06Sym, 0, jb.depth)
+		for l := jb.depth - 1; l >= 0; l-- {
+			ends = append(ends, end(kindAt(l)))
+		}
+		switch jb.edit {
+		case 1:
+			ends = append(ends[:jb.at], ends[jb.at+1:]...)
+		case 2:
+			ends[jb.at], ends[jb.at+1] = ends[jb.at+1], ends[jb.at]
+		case 3:
+			k := ends[jb.at].block
+			other := kinds[(indexOf(kinds, k)+1)%len(kinds)]
+			ends[jb.at] = end(other)
+		}
+		for _, e := range ends {
+			seq = append(seq, e, text)
+		}
+		v := c06ModelSyms(seq)
+		var sb strings.Builder
+		for k, sym := range seq {
+			if sym.name == "text" {
+				sb.WriteString("T" + strconv.Itoa(k) + ";")
+			} else {
+				sb.WriteString(sym.src)
+			}
+		}
+		src := sb.String()
+		if v.accept {
+			c06CheckAccepted(r, seq, v)
+			return
+		}
+		r.Eval()
+		r.Transition()
+		r.Trace()
+		r.State("deep:" + fmt.Sprint(jb.edit))
+		var tpl *liquid.Template
+		var err liquid.SourceError
+		if p := explore.Safe(func() { tpl, err = c06.eng.ParseTemplate([]byte(src)) }); p != nil {
+			r.Violation(p.Key(), map[string]any{"template": trunc80(src), "depth": jb.depth}, "rejected", p.Value)
+			return
+		}
+		r.Class("deep/reject")
+		if err == nil || tpl != nil {
+			r.Violation("A1:accept-reject:"+c06Why(nil, v), map[string]any{"template": src, "depth": jb.depth, "edit": jb.edit, "at": jb.at}, "rejected", "accepted")
+		}
+	}}
+}
+
+func indexOf(xs []string, x string) int {
+	for i, y := range xs {
+		if x == y {
+			return i
+		}
+	}
+	return 0
 }
 
 // c06Why names the structural reason of a reject/accept disagreement (violation key).
@@ -474,7 +584,7 @@ func init() {
 		ID:    "C06",
 		Level: "model_checking",
 		Rule: "all token sequences of length <=5 (quick) / <=6 (thorough) over the 22-symbol alphabet {text marker, object, plain tag, 8 block openers, else/elsif/when, 8 end tags}, every tag with valid arguments so only structure decides; " +
-			"model = pushdown acceptor with comment/raw modes and the clause table of the Liquid documentation; every sequence is parsed by the real ParseTemplate (no state merging); accepted templates are compared by tree shape (GetRoot) and by rendered markers; second family: every accepted sequence of <=6 (quick) / <=8 (thorough) symbols over an 18-symbol semantic alphabet in which conditions may be false (if false, unless true, empty for, when 2, elsif false), enumerated by a depth-first walk over model-viable prefixes, so that else/elsif/when bodies are the taken paths; " +
+			"model = pushdown acceptor with comment/raw modes and the clause table of the Liquid documentation; every sequence is parsed by the real ParseTemplate (no state merging); accepted templates are compared by tree shape (GetRoot) and by rendered markers; second family: every accepted sequence of <=6 (quick) / <=8 (thorough) symbols over an 18-symbol semantic alphabet in which conditions may be false (if false, unless true, empty for, when 2, elsif false), enumerated by a depth-first walk over model-viable prefixes, so that else/elsif/when bodies are the taken paths; third family: nesting depth 1..40 of each block kind and of the alternating pattern, with every single-position edit (end tag dropped, adjacent end tags swapped, end tag of another kind, stray elsif); " +
 			"state = PDA configuration (open-block stack, mode) after the sequence; transition/trace = one sequence",
 		Assumptions: []string{
 			"rendering is not compared when a clause follows an else or content stands between case and its first when (order semantics not stated); acceptance and tree shape still are",
